@@ -1073,6 +1073,13 @@ class Engine:
             name = getattr(f, '__name__', '')
             if isinstance(slf, BinStr) or isinstance(f, BinCount):
                 pass
+            if isinstance(slf, (int, float, frozenset)) and not isinstance(slf, bool) and not any(is_sym(a) for a in args) and not kwargs \
+                    and name in ('bit_length', 'bit_count', 'to_bytes', 'conjugate', 'is_integer', '__index__', 'union', 'intersection'):
+                # pure method of an immutable concrete value
+                try:
+                    return f(*args)
+                except HOST_ERRORS as e:
+                    raise PyRaise(self.make_exc(type(e), str(e)))
             if isinstance(slf, (list, dict, tuple, str, bytes)) or slf is None or isinstance(slf, types.ModuleType):
                 if any(is_sym(a) for a in args) and isinstance(slf, dict) and name in ('get', '__getitem__'):
                     return self.dict_lookup(slf, args[0], args[1] if len(args) > 1 else None, name == 'get')
